@@ -42,7 +42,7 @@ def predictions(payloads: list) -> list[dict]:
     for p in payloads:
         c = _norm_case(p["case"])
         k = sk.case_key(c)
-        e = by.setdefault(k, {"case": c, "outcomes": set(), "steps": [], "fragile": bool(p["fragile"]),
+        e = by.setdefault(k, {"case": c, "outcomes": set(), "steps": [], "fragile": bool(p["fragile"]), "undefined": bool(p["undefined"]),
                               "result": set(), "scan": set()})
         e["outcomes"].add(p["outcome"])
         e["steps"].append(p["last"])      # steps of 100 the network has made at the last row (history included)
@@ -56,7 +56,7 @@ def predictions(payloads: list) -> list[dict]:
         if (oc == "ok") != (e["result"] == {"value"}) or (oc == "fail") != (e["scan"] == {"nan"}):
             raise MachineryError(f"plumbing prediction inconsistent for {k}")
         out.append({"case": e["case"], "key": k, "outcome": oc, "slo": min(e["steps"]), "shi": max(e["steps"]),
-                    "fragile": e["fragile"]})
+                    "fragile": e["fragile"], "undefined": e["undefined"]})
     return out
 
 
@@ -129,12 +129,16 @@ def run(ctx: Ctx) -> int:
             ("looserel", "SteadyLoop_looserel.cfg", "AccumFails"),
             ("slowaccum", "SteadyLoop_slowaccum.cfg", "AccumFails"),
             ("earlier", "SteadyLoop_earlier.cfg", "Plumbing"),
+            ("nan_zero", "SteadyLoop_nan_zero.cfg", "SuccessIsSteady"),
+            ("nan_grow", "SteadyLoop_nan_grow.cfg", "AccumFails"),
+            ("stale_flux", "SteadyLoop_stale_flux.cfg", "FluxesBalance"),
             ("grid", "SteadyLoop_quick.cfg" if ctx.quick else "SteadyLoop_full.cfg", None)]
 
     def _job(j):
-        return ctx.tlc("SteadyLoop.tla", j[1], tag=j[0], expect_violation=j[2] is not None, workers=4)
+        return ctx.tlc("SteadyLoop.tla", j[1], tag=j[0], expect_violation=j[2] is not None,
+                       workers=2 if j[2] is not None else 8)
 
-    with ThreadPoolExecutor(max_workers=6) as ex:
+    with ThreadPoolExecutor(max_workers=9) as ex:
         outs = list(ex.map(_job, jobs))
     for (tag, cfg, inv), r in zip(jobs, outs):
         if inv is not None:
@@ -147,6 +151,9 @@ def run(ctx: Ctx) -> int:
         "alias loop, accumulating networks": "AccumFails violated (x' = c reported as steady at step 2)",
         "copy loop, relative norm, tol > 1/MaxSteps, accumulation": "AccumFails violated (limit of the criterion)",
         "copy loop, absolute norm, accumulation per step < tol": "AccumFails violated (limit of the criterion)",
+        "undefined norm counts as converged, identically-zero variable, relative norm": "SuccessIsSteady violated",
+        "undefined norm counts as converged, growth overflowing within the budget": "AccumFails violated",
+        "fluxes of a later steady-state point evaluated under an earlier segment's parameters": "FluxesBalance violated",
         "reporter that hands back earlier results after a failed search": "Plumbing violated (history: simulate, then "
                                                                           "a failed steady-state search)"}
     grid = outs[-1]
@@ -154,6 +161,11 @@ def run(ctx: Ctx) -> int:
     rep.exhaustive = True
     preds = predictions(grid.payloads)
     n_min = 300 if ctx.quick else 2000
+    for need, what in ((lambda p: p["undefined"], "undefined norm (identically-zero variable, relative norm)"),
+                       (lambda p: p["case"]["kind"] == "grow" and p["case"]["m"] >= 2, "growth overflowing in the budget"),
+                       (lambda p: p["case"]["prior"] == "ssupd", "steady state / parameter update / steady state")):
+        if not any(need(p) for p in preds):
+            raise MachineryError(f"no case of the family: {what}")
     if not any(p["case"]["prior"] == "sim" and p["outcome"] == "fail" for p in preds):
         raise MachineryError("no case with a history (earlier successful simulate) and a failing steady-state search")
     if len(preds) < n_min:
